@@ -18,6 +18,7 @@ type Env struct {
 	bound    map[string]Val
 	pkg      *types.Package
 	depth    int
+	visKey   string
 }
 
 type cxError struct{ msg string }
@@ -586,28 +587,15 @@ func (e *Env) call(n *CNode) Val {
 		}
 		return Val{t: fmt.Sprintf("(and (< %s %s) (<= %s %s))", g.get(e.oldState, "$alloc"), v.t, v.t, g.get(e.state, "$alloc")), ty: tBool}
 	case "visited":
-		// visited(k): key k already visited by the (single) map iteration of the current loop
 		a := args()
-		for k, ki := range g.keys {
-			if ki.kind == "visited" && strings.HasPrefix(k, "V|"+e.fc.prefix) {
-				if len(n.Args) == 2 && !strings.HasSuffix(k, n.Args[1].Name) {
-					continue
-				}
-				return Val{t: fmt.Sprintf("(select %s %s)", g.get(e.state, k), a[0].t), ty: tBool}
-			}
-		}
-		cxFail("no map iteration for visited()")
+		k := e.theVisKey()
+		return Val{t: fmt.Sprintf("(select %s %s)", g.get(e.state, k), a[0].t), ty: tBool}
+	case "visitedCount":
+		k := "N|" + strings.TrimPrefix(e.theVisKey(), "V|")
+		return Val{t: g.get(e.state, k), ty: tMath}
 	case "visitedSet":
-		for _, k := range g.keyOrder {
-			ki := g.keys[k]
-			if ki.kind == "visited" && strings.HasPrefix(k, "V|"+e.fc.prefix) {
-				if len(n.Args) == 1 && !strings.HasSuffix(k, n.Args[0].Name) {
-					continue
-				}
-				return Val{t: g.get(e.state, k), gk: "set", gs: ki.sort}
-			}
-		}
-		cxFail("no map iteration for visitedSet()")
+		k := e.theVisKey()
+		return Val{t: g.get(e.state, k), gk: "set", gs: g.keys[k].sort}
 	case "domain":
 		v := e.expr(n.Args[0])
 		mt := v.ty.Underlying().(*types.Map)
@@ -658,4 +646,20 @@ func (e *Env) specCall(sf *SpecFn, n *CNode) Val {
 		s.bound[p] = e.expr(n.Args[i])
 	}
 	return s.expr(sf.Body)
+}
+
+func (e *Env) theVisKey() string {
+	if e.visKey != "" {
+		return e.visKey
+	}
+	var found []string
+	for _, k := range e.g.keyOrder {
+		if e.g.keys[k].kind == "visited" && strings.HasPrefix(k, "V|"+e.fc.prefix) {
+			found = append(found, k)
+		}
+	}
+	if len(found) != 1 {
+		cxFail("visited(): %d map iterations in scope; only allowed inside a loop over a map", len(found))
+	}
+	return found[0]
 }
